@@ -44,6 +44,15 @@ func (c *verifRCtx) Err() error {
 	return c.Context.Err()
 }
 
+// a failing Get runs into its request timeout
+func verifRTimeOut() {
+	if verifSymbolic() {
+		verifRClock += RequestTimeout
+	} else {
+		time.Sleep(RequestTimeout + 10*time.Millisecond)
+	}
+}
+
 func verifRWithTimeout(parent context.Context, d time.Duration) (context.Context, context.CancelFunc) {
 	if verifRDeadlines {
 		return &verifRCtx{Context: parent, deadline: verifRClock + d}, func() {}
